@@ -265,7 +265,25 @@ def c12(cx):
                     what="every endpoint x 7 methods x request classes with liveness probe and panic log; unreachable peers; idle / half-sent connections at shutdown")
 
 
-PLANS = {"C01": c01, "C02": c02, "C03": c03, "C04": c04, "C06": c06, "C07": c07, "C08": c08, "C09": c09, "C10": c10, "C11": c11, "C12": c12, "C16": c16, "C17": c17, "C18": c18, "C19": c19, "C20": c20}
+def c05(cx):
+    cx.assumptions += ["process-crash model: completed system calls survive, a single write system call is atomic (not torn); power loss / torn pages are outside the property",
+                       "kills on entry to the n-th write system call on a given file are injected with strace (ptrace); if strace is unavailable that part is skipped and reported",
+                       "the child process writes every trace event through to its file before the hook returns, and journals the ground truth of the signatures it makes"]
+    q = cx.tier == QUICK
+    cx.mc("MC_Equip", "MC_Crash_Equip.cfg", {"Defects": "{}", "MaxAuths": 2 if q else 3, "MaxReports": 1},
+          note="Crash enabled in every state incl. the very first start; the two intermediate file states (server.keys created-not-written, "
+               "gcaPubKey.dat truncated-not-written); StartAlwaysOK, StillRegistrable, RestartEquiv")
+    cx.mc("MC_Rotate", "MC_Crash_Rotate.cfg", {"Defects": "{}", "MaxNow": 8, "MaxReports": 1 if q else 2},
+          note="Crash in every state of the rotation model")
+    r = cx.drv_ok("crash", timeout=200)
+    cx.cov["crashes"] = r["summary"].get("crashes")
+    cx.validate("Trace_Server", "Trace_C05.cfg", r["trace"],
+                what="child processes killed at armed crash points inside each persistence operation, by SIGKILL at random instants, and on entry to "
+                     "the n-th write system call on each file (strace injection); files found = completed operations + at most the write in flight, "
+                     "start succeeds and equals the specification's load of those files, registration still possible / refused as recorded")
+
+
+PLANS = {"C01": c01, "C02": c02, "C03": c03, "C04": c04, "C05": c05, "C06": c06, "C07": c07, "C08": c08, "C09": c09, "C10": c10, "C11": c11, "C12": c12, "C16": c16, "C17": c17, "C18": c18, "C19": c19, "C20": c20}
 
 
 def replay(cx, path):
